@@ -99,7 +99,7 @@ def trace_validation(ctx, cov):
 
 def run(ctx):
     if ctx.quick:
-        plan = [("mc/SymRes_c03_quick.cfg", 900, 5), ("mc/SymRes_c03_roots.cfg", 900, 3)]
+        plan = [("mc/SymRes_c03_quick.cfg", 900, 16), ("mc/SymRes_c03_roots.cfg", 900, 8)]
     else:
         plan = [("mc/SymRes_c03_quick.cfg", 900, 2), ("mc/SymRes_c03_roots.cfg", 900, 1),
                 ("mc/SymRes_c03_weak.cfg", 2400, 16), ("mc/SymRes_c03_chain.cfg", 1200, 6)]
